@@ -267,19 +267,28 @@ Definition section_scalars (kv : section) : sres :=
   end.
 
 (* include_comments: a string, or (deprecated) a boolean rewritten to "timestamp"/"none" *)
-Definition section_comments (kv : section) : option string :=
+(* include_comments is a CLOSED set of values: "none" | "stable" | "timestamp", or (deprecated) a boolean.
+   Every other TOML value - integers (0 and 1 included: `isinstance(v, bool)`, not `v in {True, False}`),
+   floats, dates, arrays, tables - is an unknown comment mode: CommentsStrategy(v) raises ValueError ->
+   InvalidConfiguration "'{v}' is not a valid choice...".  The value is carried as Python's str(v); for arrays
+   and tables str(v) is not modelled ([opaque] = true: the message is matched from the closing quote on). *)
+Definition section_comments (kv : section) : option (string * bool) :=
   match jlookup "include_comments" kv with
-  | None => Some "stable"
-  | Some (JStr s) => Some s
-  | Some (JBool b) => Some (if b then "timestamp" else "none")
-  | Some _ => None
+  | None => Some ("stable", false)
+  | Some (JStr s) => Some (s, false)
+  | Some (JBool b) => Some ((if b then "timestamp" else "none"), false)
+  | Some (JInt z) => Some (z_to_string z, false)
+  | Some (JFloat lexeme) => Some (lexeme, false)
+  | Some JNull => Some ("None", false)
+  | Some (JArr _) => Some ("", true)
+  | Some (JObj _) => Some ("", true)
   end.
 
 Record craw := {
   r_base : braw;
   r_queries_path : string; r_pkg_name : string; r_pkg_path : option string;
   r_client_name : string; r_client_file : string; r_bc_name : string; r_bc_path : string;
-  r_enums : string; r_inputs : string; r_fragments : string; r_comments : string;
+  r_enums : string; r_inputs : string; r_fragments : string; r_comments : string; r_comments_opaque : bool;
   r_snake : bool; r_all_inputs : bool; r_all_enums : bool; r_async : bool; r_otel : bool;
   r_files : list string
 }.
@@ -308,7 +317,7 @@ Definition decode_client (kv : section) : option craw :=
   do fs <- get_strlist kv "files_to_include";
   Some {| r_base := b; r_queries_path := qp; r_pkg_name := pn; r_pkg_path := pp; r_client_name := cn;
           r_client_file := cf; r_bc_name := bn; r_bc_path := bp; r_enums := en; r_inputs := inp;
-          r_fragments := fr; r_comments := cm; r_snake := sn; r_all_inputs := ai; r_all_enums := ae;
+          r_fragments := fr; r_comments := fst cm; r_comments_opaque := snd cm; r_snake := sn; r_all_inputs := ai; r_all_enums := ae;
           r_async := asy; r_otel := ot; r_files := fs |}.
 
 (* dataclasses.fields(ClientSettings) / fields(GraphQLSchemaSettings): the keys that are NOT ignored *)
@@ -389,6 +398,9 @@ Definition base_post_init (e : env) (b : braw) : res bsettings :=
         end
     end.
 
+Definition msg_comments_opaque := "' is not a valid choice. Valid options are: none, stable, timestamp".
+Definition comments_msg (r : craw) : string :=
+  if r_comments_opaque r then msg_comments_opaque else msg_comments (r_comments r).
 Definition valid_comment (s : string) : bool :=
   String.eqb s "none" || String.eqb s "stable" || String.eqb s "timestamp".
 
@@ -432,7 +444,7 @@ Definition client_post_init (e : env) (r : craw) (scalars : list scalar) : res c
     | Err x => Err x
     | Ill => Ill
     | Ok b =>
-        if negb (valid_comment (r_comments r)) then invalid (msg_comments (r_comments r))
+        if negb (valid_comment (r_comments r)) then invalid (comments_msg r)
         else
           match first_err (client_asserts e r) with
           | Some x => Err x
@@ -533,7 +545,7 @@ Definition client_checks (e : env) (r : craw) : list (option err) :=
      then Some (mkerr MissingConfiguration msg_missing_fields) else None) ]
   ++ base_checks e (r_base r)
   ++ [ (if valid_comment (r_comments r) then None
-        else Some (mkerr InvalidConfiguration (msg_comments (r_comments r)))) ]
+        else Some (mkerr InvalidConfiguration (comments_msg r))) ]
   ++ client_asserts e r.
 Definition schema_checks (e : env) (r : graw) : list (option err) :=
   base_checks e (gr_base r) ++ schema_asserts r.
@@ -637,7 +649,7 @@ Definition client_check_rows (e : env) (r : craw) : list (string * option err) :
      then Some (mkerr MissingConfiguration msg_missing_fields) else None) ]
   ++ base_check_rows e (r_base r)
   ++ [ ("include-comments", if valid_comment (r_comments r) then None
-                            else Some (mkerr InvalidConfiguration (msg_comments (r_comments r))));
+                            else Some (mkerr InvalidConfiguration (comments_msg r)));
        ("queries-path-exists", assert_path_exists e (r_queries_path r));
        ("target-package-name", assert_identifier (r_pkg_name r));
        ("target-package-path-dir", assert_path_is_valid_directory e (pkg_path_of e r));
